@@ -942,6 +942,13 @@ def glue_greenback() -> None:
                 "frame"
             )
 
+    if hasattr(greenback._impl, "_greenback_shim_sync"):  # pragma: no branch
+        # The shim used by with_portal_run_sync() keeps its child greenlet
+        # in a local of the same name
+        elaborate_frame.register(
+            greenback._impl._greenback_shim_sync, func=elaborate_greenback_shim
+        )
+
     @elaborate_frame.register(greenback.await_)
     def elaborate_greenback_await(frame: Frame, next_inner: object) -> object:
         frame.hide = True
